@@ -48,9 +48,24 @@ fn random_paths(_t: Tier) -> BoxedStrategy<PathCase> {
         3 => prop::collection::vec(prop_oneof![3 => prop::sample::select(SEGMENTS.to_vec()).prop_map(String::from), 1 => "[a-z.é ]{0,5}"], 0..7).prop_map(|v| v.join("/")),
         1 => "[a-b./]{0,12}",
         1 => prop::collection::vec(any::<char>(), 0..8).prop_map(|v| v.into_iter().collect::<String>()),
+        // long names: category and package of chosen lengths, in either spelling
+        2 => (
+            crate::engine::gen::interesting_len(700),
+            crate::engine::gen::interesting_len(700),
+            prop::sample::select(vec!["", "", "../../", "../../", "../", "/", "./", "../../../"]),
+            prop::sample::select(vec!["", "", "/", "//"]),
+            prop::sample::select(vec!['a', 'p', 'é', '-', '.']),
+        )
+            .prop_map(|(l1, l2, lead, trail, ch)| format!("{}{}/{}{}", lead, "c".repeat(l1), ch.to_string().repeat(l2), trail)),
+        // tokens of the library's own source as segments
+        1 => prop::collection::vec(prop_oneof![2 => prop::sample::select(SEGMENTS.to_vec()).prop_map(String::from), 1 => crate::engine::dict::string_token(no_nul, "a")], 0..6).prop_map(|v| v.join("/")),
     ]
     .prop_map(|path| PathCase { path })
     .boxed()
+}
+
+fn no_nul(c: char) -> bool {
+    c != '\0'
 }
 
 fn comps_eq(p: &Path, want: &[&str]) -> bool {
@@ -133,8 +148,10 @@ pub struct DepCase {
     pub text: String,
 }
 
-const PATS: [&str; 14] = [
+const PATS: [&str; 20] = [
     "mutt-[0-9]*", "pkg>=1.0", "pkg>=1<2", "{a,b}-[0-9]*", "foo-1.0", "", "pkg>1>2", "foo-[0-9", "{a,b", "a}b{", "pkg<1<2<3", "***", "é>=1", "p5-*",
+    // other glob dialects' syntax (POSIX classes, '^' negation, escapes): ordinary characters here
+    "foo-[[:digit:]]*", "[:alpha:]", "foo-[^0-9]*", "foo\\:bar", "{a:b,c}-1", "foo-[0-9:]*",
 ];
 const PATHS: [&str; 12] = [
     "../../mail/mutt", "mail/mutt", "cat//pkg/", "", "mutt", "../mail/mutt", "/mail/mutt", "a/b/c", "./a/b", "../../a/b/", "../../../a/b", "a/./b",
@@ -173,6 +190,44 @@ fn dep_enumerate(_t: Tier) -> Box<dyn Iterator<Item = DepCase>> {
         }
     }
     Box::new(out.into_iter())
+}
+
+const DEP_ALPHABET: [char; 18] = [':', ':', '[', ']', 'a', 'b', 'z', '/', '.', '-', '*', '0', '9', '>', '=', '{', '}', ','];
+
+/// random dependencies: a pattern half from the pools, from the brace grammar, over a small
+/// alphabet of structural characters or from the library's own literals; 0-3 colons; a path half
+/// from the pool or random
+fn dep_random(t: Tier) -> BoxedStrategy<DepCase> {
+    let half = || {
+        prop_oneof![
+            3 => prop::sample::select(PATS.to_vec()).prop_map(String::from),
+            3 => crate::engine::gen::small_alphabet(&DEP_ALPHABET, 4, 12),
+            // themed alphabets: bracket sets with colons, brace groups with colons, operators
+            2 => prop_oneof![
+                crate::engine::gen::small_alphabet(&['[', ':', ']', 'a'], 4, 10),
+                crate::engine::gen::small_alphabet(&['{', ',', '}', 'a', ':'], 5, 10),
+                crate::engine::gen::small_alphabet(&['>', '<', '=', '1', ':', 'p'], 6, 8),
+            ],
+            2 => crate::props::c04::pattern_strategy(2),
+            1 => crate::engine::dict::string_token(no_nul, "a"),
+            1 => (prop::sample::select(vec!["pkg-", "foo-[0-9]*", "p>=1", ""]), crate::engine::gen::small_alphabet(&DEP_ALPHABET, 3, 8)).prop_map(|(a, b)| format!("{}{}", a, b)),
+        ]
+    };
+    let path = prop_oneof![4 => prop::sample::select(PATHS.to_vec()).prop_map(String::from), 2 => random_paths(t).prop_map(|p| p.path), 1 => crate::engine::gen::small_alphabet(&DEP_ALPHABET, 4, 10)];
+    (half(), path, 0u8..12, half())
+        .prop_map(|(p, q, layout, extra)| {
+            let text = match layout {
+                0..=5 => format!("{}:{}", p, q),
+                6 => format!("{}{}", p, q),
+                7 => format!("{}::{}", p, q),
+                8 => format!("{}:{}:", p, q),
+                9 => format!(":{}:{}", p, q),
+                10 => format!("{}:{}:{}", p, extra, q),
+                _ => format!("{}{}:{}", p, extra, q),
+            };
+            DepCase { text }
+        })
+        .boxed()
 }
 
 pub fn check_dep(c: &DepCase, obs: &mut Obs) -> Result<(), String> {
@@ -228,6 +283,7 @@ pub fn property() -> Property {
             enumerated_stream("paths-enumerated", "all segment sequences with/without leading and trailing '/'", enumerate, check_path),
             random_stream("paths-random", "random path-like and arbitrary strings", random_paths, |t| t.pick(20_000, 3_000_000), check_path),
             enumerated_stream("depends", "patterns x paths x colon layouts", dep_enumerate, check_dep),
+            random_stream("depends-random", "random pattern halves (pools, brace grammar, small alphabets of structural characters, the library's own literals) x 0-3 colons x path halves", dep_random, |t| t.pick(60_000, 4_000_000), check_dep),
         ],
         selfcheck: m::selfcheck,
         hang_is_violation: false,
